@@ -35,7 +35,7 @@ CONTRACT = {   # pairs guaranteed by a function's contract (confirmed by reading
     "process_node": {frozenset(("parser", "node"))}, "process_match": {frozenset(("parser", "nt"))},
     "resolve_one_step": {frozenset(("self", "current_crossrefs"))},
 }
-def eval_get_location(root):
+def eval_get_location(root, string_model=False):
     """(result of get_location on a sample object, log of pos_to_linecol calls) by evaluation"""
     from sa import pyeval
     log = []
@@ -43,6 +43,7 @@ def eval_get_location(root):
     model = {".kind": "model", "._tx_parser": {".pos_to_linecol": p2lc("model-parser")}, "._tx_filename": "model.file", "._tx_position": 0, "._tx_position_end": 100}
     mid = {".kind": "obj", ".parent": model, "._tx_position": 3, "._tx_position_end": 40, "._tx_parser": {".pos_to_linecol": p2lc("foreign-parser")}, "._tx_filename": "other.file"}
     obj = {".kind": "obj", ".parent": mid, "._tx_position": 7, "._tx_position_end": 19}
+    if string_model: model["._tx_filename"] = None; obj["._tx_filename"] = "stale.file"          # a model loaded from a string; the object carries an attribute of that name of its own
     t = load(root, "textx/model.py"); gl = find(t, "get_location")
     env = {"__functions__": {k: v for k, v in helper_functions(root, "textx/model.py", "get_location").items()}, gl.args.args[0].arg: obj}
     try: return pyeval.run_block(gl.body, env), log
@@ -96,6 +97,11 @@ def r_origin(root):
     okl = isinstance(loc, dict) and set(loc) == {"line", "col", "nchar", "filename"} and loc["filename"] == "model.file" and loc["line"] == 101 and loc["col"] == 11 and ("model-parser", 7) in calls_ and all(tag_ == "model-parser" for tag_, _p in calls_)
     ob("C06", "C06.a", "textx/model.py", "get_location", "location of a sample object: keys, owner model's file and parser, start offset", okl)
     if not okl: out.append(Finding("C06", "C06.a", "textx/model.py", "get_location", "get_location(<object at 7..19 inside model.file>)", "the location of a sample object is %s; documented: line/col of its start offset converted by the parser of the model that contains it, and that model's file name" % (loc,)))
+    loc2, _c2 = eval_get_location(root, string_model=True)
+    inst += 1
+    oks = isinstance(loc2, dict) and "filename" in loc2 and loc2["filename"] is None and loc2.get("line") == 101
+    ob("C06", "C06.a", "textx/model.py", "get_location", "a model loaded from a string has no file name", oks)
+    if not oks: out.append(Finding("C06", "C06.a", "textx/model.py", "get_location", "get_location(<object of a model loaded from a string>)", "for an object of a model loaded from a string the location is %s; documented: filename None (the file of the model that contains the object, whatever the object itself carries), line/col as usual" % (loc2,)))
     inst += 1
     okn = isinstance(loc, dict) and loc.get("nchar") == 12
     ob("C06", "C06.a", "textx/model.py", "get_location", "nchar = end - start", okn)
